@@ -166,6 +166,10 @@ def run(ch: Checker) -> None:
             bad = ('handle_pipeline_response edits the follow-up REQUEST parser (%s) on a path that is not "upgrade offered and answered with something other than 101": its lifetime must end when the request is forwarded, not when some response completes' % other[0], p.describe())
     ch.check(bad is None and n > 0, 'C04.4', hpr, 'response parser reset', 'follow-up response parser reset exactly when complete', bad[0] if bad else '', witness=bad[1] if bad else None)
 
+    # ---------------- C04.8/9 (shared)
+    ch.import_rules('C07', {'C07.2b': 'C04.8'}, 'the last response on a persistent connection is complete only if the close waits for an empty buffer')
+    ch.import_rules('C20', {'C20.2': 'C04.9'}, 'the connection stays usable while a response is being relayed only if writes to the client count as activity')
+
     # ---------------- C04.7 (shared)
     ch.import_rules('C01', {'C01.10': 'C04.7'}, 'responses to earlier requests must keep flowing while a follow-up request is still queued for the upstream')
 
